@@ -63,9 +63,8 @@ def guarded(fn):
     every outcome (violation, exception, timeout) is ignored here."""
     import signal
     import core
-    limit = int(os.environ.get("VERIF_HANG_LIMITS", "300,2400").split(",")[0])
-    signal.signal(signal.SIGALRM, core._alarm)
-    signal.alarm(limit)
+    signal.signal(signal.SIGVTALRM, core._alarm)
+    signal.setitimer(signal.ITIMER_VIRTUAL, core.hang_limit())
     try:
         fn()
     except core.RunTimeout:
@@ -73,7 +72,7 @@ def guarded(fn):
     except Exception:
         pass
     finally:
-        signal.alarm(0)
+        signal.setitimer(signal.ITIMER_VIRTUAL, 0)
 
 
 def pre_steps(mod, mode, tier):
@@ -257,10 +256,26 @@ def cmd_replay(a):
         print("no violation reproduced")
         return 0
     if doc.get("regenerate"):
+        import signal
         g = doc["regenerate"]
         rng = core.run_rng(g["seed"], mod.PROP_ID, g["idx"])
         cfg = mod.gen_config(rng, g["tier"])
-        r = core.execute(mod.RunClass, cfg, rng=rng, max_steps=cfg["steps"], want_log=a.log)
+        signal.signal(signal.SIGVTALRM, core._alarm)
+        signal.setitimer(signal.ITIMER_VIRTUAL, 2 * core.hang_limit())
+        try:
+            import resource
+            lim = int(float(os.environ.get("VERIF_CHILD_AS_GB", "10")) * (1 << 30))
+            resource.setrlimit(resource.RLIMIT_AS, (lim, lim))
+        except Exception:
+            pass
+        try:
+            r = core.execute(mod.RunClass, cfg, rng=rng, max_steps=cfg["steps"], want_log=a.log)
+        except (core.RunTimeout, MemoryError):
+            print("run %s did not finish within %.0f CPU seconds / the address-space limit" % (g["idx"], 2 * core.hang_limit()))
+            print("VIOLATION property=%s replay=%s" % (doc["property"], a.path))
+            return 1
+        finally:
+            signal.setitimer(signal.ITIMER_VIRTUAL, 0)
     else:
         r = core.execute(mod.RunClass, doc["cfg"], ops=doc["ops"], want_log=a.log)
     if a.log:
@@ -466,14 +481,14 @@ def finish_check(pid, seed, tier, parts, wall, sizes):
             continue
         if r["oracle"] == "hang":
             # a hang is confirmed by the replay itself not finishing within the limit
-            try:
-                rc = subprocess.call([sys.executable, os.path.abspath(__file__), "replay", r["replay"]],
-                                     stdout=subprocess.DEVNULL, cwd=VERIF,
-                                     timeout=int(os.environ.get("VERIF_HANG_LIMITS", "300,2400").split(",")[-1]))
-                print("NOTE: run %s exceeded the wall-clock limits in the batch but completed on replay: "
-                      "treated as load, not as a hang" % r["idx"])
-            except subprocess.TimeoutExpired:
+            # the replay regenerates the run under the same CPU limit and reports the hang itself
+            rc = subprocess.call([sys.executable, os.path.abspath(__file__), "replay", r["replay"]],
+                                 stdout=subprocess.DEVNULL, cwd=VERIF)
+            if rc == 1:
                 verified.append(r)
+            else:
+                print("NOTE: run %s exceeded the CPU limit in the batch but completed on replay (rc=%s): "
+                      "not reported" % (r["idx"], rc))
             continue
         rc = subprocess.call([sys.executable, os.path.abspath(__file__), "replay", r["replay"]],
                              stdout=subprocess.DEVNULL, cwd=VERIF)
